@@ -33,6 +33,11 @@ CHECKS = {
    text="Concurrency facet: goroutines run operation lists on shared nosync.Mutex/RWMutex/WaitGroup/Once/Map/Pool objects and on sync/atomic variables (function forms and typed Int32/Int64/Uint32/Uint64/Uintptr/Bool/Pointer[T]/Value), with seeded suspensions between operations and inside Once.Do, Map.Range and Pool.New callbacks so that operations genuinely overlap; every history is stepped through sequential reference state machines written from the documented contracts of sync and sync/atomic: uncontended operations behave as in sync, contended ones (would block / fatal in sync) panic and leave the object unchanged, atomics are atomic (invoke and return adjacent) with Go's wrap-around, Value's misuse panics. Bit-exact math, math/bits and unicode are pure functions and are not decided.",
    note="Trusted: the reference state machines, the simulator. sync.Pool's permission to drop items is granted to nosync.Pool too. The function forms on unsafe.Pointer are not exercised (unsafe.Pointer identity is unsupported by GopherJS).",
    technique="deterministic simulation (seeded suspensions inside critical sections and callbacks) with sequential reference models over the recorded history"),
+ "C02": dict(
+   category="exploration", design_ref="DESIGN.md §4 C02",
+   text="Seeded generator of terminating sequential programs with yield atoms in every expression position, reached through every call kind the property lists (direct, pointer/value/promoted method, method value/expression, interface, function value, generic function/method, other package, go:linkname, deferred call, chains); each program is built in direct form (atoms are plain functions) and resumable form (atoms may suspend) by the tree's compiler, the resumable build is run under the all-default tape (no suspension) and under seeded suspension tapes in the simulated event loop, and printed trace, atom occurrence sequence and termination must be identical: out(D)==out(R0)==out(Rs).",
+   note="Trusted: the generator's subset rules (Appendix C), the simulator. Metamorphic oracle: GopherJS against itself, so a defect that is identical in all three builds is not seen here. Known evaluation-order shapes F6a/F6b are not generated in clean mode (7/8 of programs) and are attributed by a syntactic trigger predicate in the rest.",
+   technique="deterministic simulation (seeded suspension schedules of generated programs) with a metamorphic direct-vs-resumable oracle"),
 }
 
 def main():
